@@ -342,6 +342,54 @@ func harnessC14TwoPaths() {
 	verif_assert(n >= 1, "C14/genuine-announcement-does-not-renew-route")
 }
 
+// the same for every kind of route the origin announces (domain, forward key, agent
+// presence next to the CIDR route): whichever of the two paths carries the newer
+// announcement first, every stored route of the origin is renewed to its sequence
+func harnessC14TwoPathsAllKinds() {
+	f, _, rm := fNew(0, []identity.AgentID{fID(0), fID(1)})
+	r, o := fID(0), fID(1)
+	s1, s2 := verif_nondet_u64(), verif_nondet_u64()
+	verif_assume(s2 > s1)
+	deliver := func(seq uint64, viaRelay bool) bool {
+		if viaRelay {
+			return f.HandleRouteAdvertise(r, o, "", seq, c06Group(o, 'o', 1, 0), &protocol.EncryptedData{Data: protocol.EncodePath([]identity.AgentID{r, o})}, []identity.AgentID{o, r})
+		}
+		return f.HandleRouteAdvertise(o, o, "", seq, c06Group(o, 'o', 0, 0), &protocol.EncryptedData{Data: protocol.EncodePath([]identity.AgentID{o})}, []identity.AgentID{o})
+	}
+	ok1 := deliver(s1, verif_nondet_bool())
+	verif_set_now(1000)
+	ok2 := deliver(s2, verif_nondet_bool())
+	verif_reach("C14/two-paths-all-kinds")
+	verif_assert(ok1 && ok2, "C14/genuine-announcement-ignored")
+	n := 0
+	for _, rt := range rm.Table().GetAllRoutes() {
+		if rt.OriginAgent == o {
+			n++
+			verif_assert(rt.Sequence == s2, "C14/stale-copy-of-the-origin-route-kept")
+		}
+	}
+	for _, rt := range rm.DomainTable().GetAllRoutes() {
+		if rt.OriginAgent == o {
+			n++
+			verif_assert(rt.Sequence == s2, "C14/stale-copy-of-the-origin-domain-route-kept")
+		}
+	}
+	for _, rt := range rm.ForwardTable().GetAllRoutes() {
+		if rt.OriginAgent == o {
+			n++
+			verif_assert(rt.Sequence == s2, "C14/stale-copy-of-the-origin-forward-route-kept")
+		}
+	}
+	// the presence table keeps one copy per next hop: the copy learned over the path that
+	// carried the newer announcement is the one that is renewed
+	renewed := false
+	for _, ar := range rm.AgentTable().GetRoutesForAgent(o) {
+		renewed = renewed || ar.Sequence == s2
+	}
+	verif_assert(renewed, "C14/genuine-announcement-does-not-renew-presence")
+	verif_assert(n >= 4, "C14/genuine-announcement-does-not-renew-route")
+}
+
 // C13 on the full-table replay: routes learned at one and at two hops plus a
 // local route are replayed to a new peer; for every replayed route the metric the
 // receiver will store (wire + 1) equals the length of the replayed path, for every
